@@ -27,6 +27,8 @@ import (
 type findingClass struct {
 	id      string
 	neutral func(src []byte) ([]byte, bool) // the source without the trigger; false: no trigger in it
+	// neutralCase, if set, is used instead of neutral: the whole case without the trigger
+	neutralCase func(b lexh.BuildCase) (lexh.BuildCase, bool)
 }
 
 var (
@@ -42,17 +44,24 @@ var (
 	juxtaposedRe       = regexp.MustCompile(`\}[ \t\n]*\{`)
 	literalKeyRe       = regexp.MustCompile(`\{[^{}]*\}([ \t\n]*:)`)
 	extendsStmtRe      = regexp.MustCompile(`\{%[ \t\n]*extends\b[^%]*%\}`)
+	moduleRe           = regexp.MustCompile(`(?m)^[ \t]*module[ \t]+([^ \t\n;]+)`)
+	importPathRe       = regexp.MustCompile("(?:\\bimport\\b|[(;\\n])[ \\t]*(?:[A-Za-z_.][A-Za-z0-9_]*[ \\t]*)?[\"`]([^\"`\\n]*)[\"`]")
+	identOnlyRe        = regexp.MustCompile(`^[A-Za-z_][A-Za-z0-9_]*$`)
+	ifaceVarRe         = regexp.MustCompile(`\b([A-Za-z_][A-Za-z0-9_]*)[ \t]*:=[ \t]*(?:nat\.)?(?:FI\(\)|Iv|NilI|Err)|\bvar[ \t]+([A-Za-z_][A-Za-z0-9_]*)[ \t]+(?:(?:nat\.)?I\b|interface[ \t]*\{[ \t]*[A-Za-z_])`)
+	importNameRe       = regexp.MustCompile("\\bimport[ \\t]+([A-Za-z_][A-Za-z0-9_]*)[ \\t]*[\"`]|\\bimport[ \\t]*[\"`](?:[^\"`/]*/)*([A-Za-z_][A-Za-z0-9_]*)[\"`]")
+	nilFuncConvRe      = regexp.MustCompile(`(?:\([ \t]*func\b[^{};]*?\)|\bmacro\b[^{};]*?)[ \t]*\([ \t]*nil[ \t]*\)`)
+	variadicCalleeRe   = regexp.MustCompile(`\b(println|print|append|FV|FVF)[ \t]*\(`)
 	elseRe             = regexp.MustCompile(`\{%[ \t\n]*else[ \t\n]*%\}|\belse\b`)
 )
 
 var findingClasses = []findingClass{
-	{"labelled-continue-panics", func(src []byte) ([]byte, bool) {
+	{id: "labelled-continue-panics", neutral: func(src []byte) ([]byte, bool) {
 		if !contLabelRe.Match(src) {
 			return nil, false
 		}
 		return contLabelRe.ReplaceAll(src, []byte("continue")), true
 	}},
-	{"labelled-break-in-range-panics", func(src []byte) ([]byte, bool) {
+	{id: "labelled-break-in-range-panics", neutral: func(src []byte) ([]byte, bool) {
 		// `break L` where L labels a for-range loop
 		out, changed := src, false
 		for _, m := range rangeLabelRe.FindAllSubmatch(src, -1) {
@@ -64,34 +73,34 @@ var findingClasses = []findingClass{
 		}
 		return out, changed
 	}},
-	{"labelled-for-in-panics", func(src []byte) ([]byte, bool) {
+	{id: "labelled-for-in-panics", neutral: func(src []byte) ([]byte, bool) {
 		if !forInLabelRe.Match(src) {
 			return nil, false
 		}
 		return forInLabelRe.ReplaceAll(src, []byte("$1")), true
 	}},
-	{"return-outside-macro-panics", neutralReturn},
-	{"return-in-statements-block-panics", neutralReturn},
-	{"switch-init-without-tag-panics", func(src []byte) ([]byte, bool) {
+	{id: "return-outside-macro-panics", neutral: neutralReturn},
+	{id: "return-in-statements-block-panics", neutral: neutralReturn},
+	{id: "switch-init-without-tag-panics", neutral: func(src []byte) ([]byte, bool) {
 		if !switchInitRe.Match(src) {
 			return nil, false
 		}
 		return switchInitRe.ReplaceAll(src, []byte("switch${1}_ = $2;$3")), true
 	}},
-	{"map-type-without-key-panics", func(src []byte) ([]byte, bool) {
+	{id: "map-type-without-key-panics", neutral: func(src []byte) ([]byte, bool) {
 		if !mapNoKeyRe.Match(src) {
 			return nil, false
 		}
 		return mapNoKeyRe.ReplaceAll(src, []byte("map[int]")), true
 	}},
-	{"contains-on-non-container-panics", func(src []byte) ([]byte, bool) {
+	{id: "contains-on-non-container-panics", neutral: func(src []byte) ([]byte, bool) {
 		// `contains` in a source with nothing that could make a string, slice, array or map value
 		if !containsRe.Match(src) || couldBeContainerRe.Match(extendsStmtRe.ReplaceAll(src, nil)) {
 			return nil, false
 		}
 		return containsRe.ReplaceAll(src, []byte("==")), true
 	}},
-	{"composite-literal-without-type-panics", func(src []byte) ([]byte, bool) {
+	{id: "composite-literal-without-type-panics", neutral: func(src []byte) ([]byte, bool) {
 		// a composite literal without type where no type is implied: `{…} {…}` (a missing comma: the first literal is
 		// taken as the type of the second) or `{…}: v` as the index of a slice or array element; neutralised by the
 		// comma / by the index 0
@@ -100,7 +109,106 @@ var findingClasses = []findingClass{
 		}
 		return literalKeyRe.ReplaceAll(juxtaposedRe.ReplaceAll(src, []byte("},{")), []byte("0$1")), true
 	}},
-	{"duplicate-else-panics", func(src []byte) ([]byte, bool) {
+	{id: "missing-sibling-import-panics", neutralCase: func(b lexh.BuildCase) (lexh.BuildCase, bool) {
+		// prediction: a package file of a module imports, before its last import of a package of the module, a package
+		// of the module that has no Go file (ParseProgram then looks for the importing file in a sibling that is not
+		// parsed yet); neutralised by giving every such package an empty source file
+		mod := moduleRe.FindSubmatch(b.Files["go.mod"])
+		if mod == nil || !b.Program() {
+			return b, false
+		}
+		prefix := string(mod[1]) + "/"
+		exists := func(path string) bool {
+			dir := strings.TrimPrefix(path, prefix) + "/"
+			for n := range b.Files {
+				if strings.HasPrefix(n, dir) && strings.HasSuffix(n, ".go") && !strings.Contains(n[len(dir):], "/") {
+					return true
+				}
+			}
+			return false
+		}
+		nb := lexh.BuildCase{Kind: b.Kind, Entry: b.Entry, Files: map[string][]byte{}}
+		predicted := false
+		for n, d := range b.Files {
+			nb.Files[n] = d
+			if !strings.HasSuffix(n, ".go") {
+				continue
+			}
+			var paths []string
+			for _, m := range importPathRe.FindAllSubmatch(d, -1) {
+				if strings.HasPrefix(string(m[1]), prefix) {
+					paths = append(paths, string(m[1]))
+				}
+			}
+			for k, p := range paths {
+				if k+1 < len(paths) && !exists(p) {
+					predicted = true
+				}
+			}
+		}
+		if !predicted {
+			return b, false
+		}
+		for _, d := range b.Files {
+			for _, m := range importPathRe.FindAllSubmatch(d, -1) {
+				if p := string(m[1]); strings.HasPrefix(p, prefix) && !exists(p) {
+					dir := strings.TrimPrefix(p, prefix)
+					base := dir[strings.LastIndexByte(dir, '/')+1:]
+					if identOnlyRe.MatchString(base) {
+						nb.Files[dir+"/"+base+".go"] = []byte("package " + base + "\n")
+					}
+				}
+			}
+		}
+		return nb, true
+	}},
+	{id: "defer-interface-method-panics", neutral: func(src []byte) ([]byte, bool) {
+		// `defer v.M(…)` where v is a value of a native interface type: one of the interface-valued declarations of the
+		// native package nat, a variable initialised from one or declared with a non-empty interface type, or a type
+		// assertion to the native interface type; neutralised by calling without defer
+		names := []string{`(?:nat\.)?(?:Iv|NilI|Err|FI\(\))`, `[A-Za-z_][A-Za-z0-9_]*\.\((?:nat\.)?I\)`}
+		for _, m := range ifaceVarRe.FindAllSubmatch(src, -1) {
+			for _, g := range m[1:] {
+				if len(g) > 0 {
+					names = append(names, regexp.QuoteMeta(string(g)))
+				}
+			}
+		}
+		re := regexp.MustCompile(`\bdefer[ \t]+((?:` + strings.Join(names, "|") + `)\.[A-Za-z_][A-Za-z0-9_]*\()`)
+		if !re.Match(src) {
+			return nil, false
+		}
+		return re.ReplaceAll(src, []byte("$1")), true
+	}},
+	{id: "defer-package-function-panics", neutral: func(src []byte) ([]byte, bool) {
+		// `defer p.F(…)` where p is the name under which a Scriggo package or template file is imported
+		var names []string
+		for _, m := range importNameRe.FindAllSubmatch(src, -1) {
+			for _, g := range m[1:] {
+				if len(g) > 0 && string(g) != "nat" {
+					names = append(names, regexp.QuoteMeta(string(g)))
+				}
+			}
+		}
+		if len(names) == 0 {
+			return nil, false
+		}
+		re := regexp.MustCompile(`\bdefer[ \t]*(\(?(?:` + strings.Join(names, "|") + `)\.[A-Za-z_][A-Za-z0-9_]*\)?\()`)
+		if !re.Match(src) {
+			return nil, false
+		}
+		return re.ReplaceAll(src, []byte("$1")), true
+	}},
+	{id: "variadic-nil-func-conversion-panics", neutral: func(src []byte) ([]byte, bool) {
+		// a nil converted to a function or macro type, `(func(…) …)(nil)`, in a source with a variadic parameter or a call of
+		// a variadic builtin or native function; neutralised by
+		// the plain nil
+		if !nilFuncConvRe.Match(src) || !(strings.Contains(string(src), "...") || variadicCalleeRe.Match(src)) {
+			return nil, false
+		}
+		return nilFuncConvRe.ReplaceAll(src, []byte("nil")), true
+	}},
+	{id: "duplicate-else-panics", neutral: func(src []byte) ([]byte, bool) {
 		locs := elseRe.FindAllIndex(src, -1)
 		if len(locs) < 2 {
 			return nil, false
@@ -123,6 +231,12 @@ func classKnown(b lexh.BuildCase, sig string, knownSig map[string]string, hasFin
 	sigOf func(lexh.BuildCase) string) string {
 	for _, fc := range findingClasses {
 		if knownSig[fc.id] != sig || !hasFinding(fc.id) {
+			continue
+		}
+		if fc.neutralCase != nil {
+			if nb, ok := fc.neutralCase(b); ok && sigOf(nb) != sig {
+				return fc.id
+			}
 			continue
 		}
 		nb := lexh.BuildCase{Kind: b.Kind, Entry: b.Entry, Files: map[string][]byte{}}
